@@ -53,6 +53,7 @@ pub fn cfg() -> GenCfg {
         max_comp_depth: 3,
         p_count_conflict: 6,
         fk_to_null: true,
+        hyphen_vars: true,
         ..GenCfg::default()
     }
 }
